@@ -18,6 +18,7 @@ import contextlib
 import io
 import os
 import shutil
+import collections
 from pathlib import Path
 from typing import Any, Dict, List, Optional
 
@@ -50,14 +51,20 @@ class Script:
     def from_hist(hist: List[dict]) -> "Script":
         s = Script()
         obs = 0
+        pend = {}
         for h in hist:
             a = h["a"]
             if a in ("W_Emit", "W_Exit", "W_Fail", "W_ExtStop"):
                 s.wev.setdefault(obs, []).append((a, h["t"]))
             elif a in OBS_ACTIONS:
                 obs += 1
+            elif a == "T_Exploit":
+                pend[h["t"]] = h["s"]
             elif a == "T_Result":
-                s.decisions.setdefault(h["t"], []).append(h["d"])
+                d = h["d"]
+                if h["t"] in pend:      # PBT-type exploit: "STOP@s" = queue a clone of s, then answer STOP
+                    d = f"{d}@{pend.pop(h['t'])}"
+                s.decisions.setdefault(h["t"], []).append(d)
             elif a == "T_SuggestNew":
                 s.suggestions.append(("new", h.get("from", -1)))
             elif a == "T_SuggestResume":
@@ -247,6 +254,7 @@ class ScriptedScheduler(TrialScheduler):
         self.script, self.kind = script, kind
         self.n_sug = 0
         self.n_res: Dict[int, int] = {}
+        self._trial_decisions_stack = collections.deque()    # same name and discipline as PopulationBasedTraining
 
     def _suggest(self, trial_id: int) -> Optional[TrialSuggestion]:
         k = self.n_sug
@@ -259,6 +267,8 @@ class ScriptedScheduler(TrialScheduler):
             new_cfg = {"x": 1000 + k, "epochs": 99} if k % 2 == 0 else None
             return TrialSuggestion.resume_suggestion(trial_id=s[1], config=new_cfg)
         src = s[1] if len(s) > 1 and s[1] is not None and s[1] >= 0 else None
+        if src is not None and self._trial_decisions_stack:
+            self._trial_decisions_stack.pop()
         return TrialSuggestion.start_suggestion({"x": trial_id, "epochs": 99}, checkpoint_trial_id=src)
 
     def on_trial_result(self, trial, result) -> str:
@@ -266,7 +276,11 @@ class ScriptedScheduler(TrialScheduler):
         k = self.n_res.get(t, 0)
         self.n_res[t] = k + 1
         ds = self.script.decisions.get(t, [])
-        return ds[k] if k < len(ds) else SchedulerDecision.CONTINUE
+        d = ds[k] if k < len(ds) else SchedulerDecision.CONTINUE
+        if "@" in d:
+            d, src = d.split("@")
+            self._trial_decisions_stack.append((int(src), None))
+        return d
 
     def metric_names(self):
         return ["m"]
@@ -331,7 +345,12 @@ def instrument_scheduler(sched, log):
         return s
 
     def on_trial_result(trial, result):
+        stack = getattr(sched, "_trial_decisions_stack", None)      # PBT-type clone queue (read, never written)
+        n0 = len(stack) if stack is not None else 0
         d = o_res(trial, result)
+        if stack is not None:
+            for j in range(n0, len(stack)):
+                log.append({"a": "Queue", "s": int(stack[j][0])})
         cx = trial.config.get("x") if isinstance(trial.config, dict) else None
         log.append({"a": "Result", "t": trial.trial_id, "r": result.get("run", 0), "i": result.get("idx", 0), "d": d,
                     "cfgx": cx if isinstance(cx, int) else -1})
@@ -429,7 +448,7 @@ def trace_conf(conf: dict) -> dict:
          "kind": conf.get("kind", "stop"), "async": bool(conf.get("async", True)),
          "wait": bool(conf.get("wait", False)), "del": bool(conf.get("del", False)), "failb": 99, "extb": 99,
          "ckind": conf.get("ckind", "script"), "k": conf.get("k", 0), "emptyexit": True, "mayexhaust": True,
-         "r3": False, "r13": False, "also": bool(conf.get("also", False)), "sim": bool(conf.get("sim", False))}
+         "r3": False, "r13": False, "also": bool(conf.get("also", False)), "sim": bool(conf.get("sim", False)), "r8": False}
     return c
 
 
@@ -438,7 +457,7 @@ TRACE_FIELDS = {
     "Fetch": ("n", "dead"), "Result": ("t", "r", "i", "d"), "StopTrial": ("t",), "PauseTrial": ("t",),
     "Remove": ("t",), "Complete": ("t",), "Error": ("t",), "CbComplete": ("t",), "Start": ("t", "from"),
     "Add": ("t",), "Resume": ("t",), "Delete": ("t",), "Exhausted": (), "StopCrit": ("b",), "Iter": (),
-    "StopAll": ("S",), "End": ("kind", "named", "cnt"), "Removable": ("S",),
+    "StopAll": ("S",), "End": ("kind", "named", "cnt"), "Removable": ("S",), "Queue": ("s",),
 }
 
 
